@@ -275,6 +275,20 @@ fn check_size(id: u8, w: u32, h: u32, pixels: &[(u32, u32)], rng: &mut Rng, rep:
                         }
                     }
                 }
+                // a rejected (out-of-bounds) write leaves the page exactly as it was: same bytes, still equal
+                for (label, q) in [("slice", &from_slice), ("vec", &from_vec)] {
+                    if let Some(q) = q {
+                        let mut victim = q.clone();
+                        for (x, y) in [(w, 0), (0, h), (u32::MAX, u32::MAX)] {
+                            let _ = std::panic::catch_unwind(std::panic::AssertUnwindSafe(|| victim.set_pixel(x, y, true)));
+                            let _ = std::panic::catch_unwind(std::panic::AssertUnwindSafe(|| victim.get_pixel(x, y)));
+                        }
+                        let intact = std::panic::catch_unwind(std::panic::AssertUnwindSafe(|| victim.as_bytes() == &bytes[..] && victim == *q && victim.id() == q.id())).unwrap_or(false);
+                        if !intact {
+                            bad.push(format!("after out-of-bounds accesses were refused the page no longer exposes its bytes / equals its copy ({})", label));
+                        }
+                    }
+                }
                 if blank && (p != fresh || hash_of(&p) != hash_of(&fresh)) {
                     bad.push("a page brought back to blank differs from a new page with the same id and size".into());
                 }
